@@ -116,3 +116,80 @@ def scenarios(tier='quick'):
         out.append(derive(specname, 'SHA256', 'AES256', 'str'))
         out.append(derive(specname, 'SHA1', 'CAST5', 'str'))
     return out
+
+
+def derive_twice(specname, hname, cname):
+    """no hidden state: a second derivation on the SAME specifier object, after its salt was replaced (what protect() does when it
+    re-salts in place), depends on the new salt exactly like a first one"""
+    label = 'C12/String2Key.derive_key[second call after re-salting,%s,%s,%s]' % (specname, hname, cname)
+
+    def gen(repo):
+        r = scn.Run(repo, 'pgpy.packet.fields.String2Key', 'derive_key', label)
+        ex, st = r.ex, r.st
+        o = E.VObj('pgpy.packet.fields.String2Key', 's2k')
+        c = z3.Int('c')
+        salt1, salt2, pw = z3.Const('salt_first', E.BYTES), z3.Const('salt_second', E.BYTES), z3.Const('pw', E.BYTES)
+        st.pc += [c >= 0, c <= 255, z3.Length(salt1) == 8, z3.Length(salt2) == 8]
+        r.set('s2k', '_specifier', E.VInt(SPEC[specname], enum='pgpy.constants.String2KeyType'))
+        r.set('s2k', '_halg', E.VInt(HASHES[hname], enum='pgpy.constants.HashAlgorithm'))
+        r.set('s2k', '_encalg', E.VInt(CIPH[cname][0], enum='pgpy.constants.SymmetricKeyAlgorithm'))
+        r.set('s2k', '_count', E.VInt(c))
+        r.set('s2k', 'salt', ex.new_buf(st, salt1))
+        hs = hashlib.new(hname).digest_size
+        kb = CIPH[cname][1] // 8
+        nctx = -(-kb // hs)
+        for pi, (s, v) in enumerate(r.call(o, [E.VBytes(pw)])):
+            if isinstance(v, E.Raise):
+                continue                                   # first call: covered by the single-call scenarios
+            n_first = len(s.ghost.get('hashed', []))
+            s.heap[('s2k', 'salt')] = ex.new_buf(s, salt2)
+            for qi, (s2, v2) in enumerate(ex.call_func(E.VFunc(r.node, None, cls=r.dcls, self_val=o, mod=r.mod), [E.VBytes(pw)], {}, s, {'mod': r.mod})):
+                if isinstance(v2, E.Raise):
+                    r.oblige(s2, 'safety(%s)/p%d.%d' % (v2.exc.split(':')[0], pi, qi), z3.BoolVal(False), v2.where)
+                    continue
+                hashed = s2.ghost.get('hashed', [])[n_first:]
+                r.oblige(s2, 'second-call-hashes-again:%d-contexts/p%d.%d' % (nctx, pi, qi), z3.BoolVal(len(hashed) == nctx))
+                for i, (alg, inp, dig) in enumerate(hashed):
+                    data = z3.Extract(inp, i, z3.Length(inp) - i)
+                    # instances of the repetition law R = X * k  =>  R[j] = X[j mod len X]  for the first eight positions
+                    inst = []
+                    for (R, XX, k) in s2.ghost.get('repeats', []):
+                        inst += [z3.Implies(z3.IntVal(j) < z3.Length(R), R[j] == XX[j % z3.Length(XX)]) for j in range(8)]
+                    r.obls.append(('%s/second-call-ctx%d-stream-starts-with-the-NEW-salt/p%d.%d' % (label, i, pi, qi),
+                                   list(s2.facts) + list(s2.pc) + inst,
+                                   z3.And(z3.Length(data) >= 8, *[data[j] == salt2[j] for j in range(8)]), None))
+                if len(hashed) == nctx and hashed:
+                    full = hashed[0][2] if nctx == 1 else z3.Concat(*[h[2] for h in hashed])
+                    r.oblige(s2, 'second-call-key-is-the-truncated-digests-of-the-second-run/p%d.%d' % (pi, qi), ex.seq(v2, s2) == z3.Extract(full, 0, kb))
+        return r.result()
+
+    def native(rng, n):
+        from pgpy.packet.fields import String2Key
+        from pgpy.constants import String2KeyType, HashAlgorithm, SymmetricKeyAlgorithm
+        from specs import s2k as spec
+        viol, cases = [], 0
+        for t in range(max(10, n // 20)):
+            k = String2Key()
+            k.specifier = String2KeyType(SPEC[specname])
+            k.halg = HashAlgorithm(HASHES[hname])
+            k.encalg = SymmetricKeyAlgorithm(CIPH[cname][0])
+            k.count = cc = rng.choice([0, 16, 96, rng.randrange(120)])
+            pwv = bytes(rng.randrange(256) for _ in range(rng.choice([0, 1, 9, 40])))
+            salts = [bytes(rng.randrange(256) for _ in range(8)) for _ in range(3)]
+            for si, sv in enumerate(salts + [salts[0]]):          # ... and back to the first salt
+                k.salt = bytearray(sv)
+                cases += 1
+                got, want = bytes(k.derive_key(pwv)), spec.derive(SPEC[specname], hname, CIPH[cname][1], sv, cc, pwv)
+                if got != want:
+                    viol.append({'args': {'salts_in_order': [x.hex() for x in salts], 'call': si, 'count': cc, 'passphrase': pwv.hex()},
+                                 'violation': 'derivation %d on the same specifier object differs from RFC 4880 3.7.1 for its current salt' % (si + 1)})
+                    return {'cases': cases, 'violations': viol}
+        return {'cases': cases, 'violations': viol}
+    return Scenario(label, 'pgpy.packet.fields.String2Key.derive_key', gen, props=('C12', 'C06', 'C13'), native=native)
+
+
+_base_scn_s = scenarios
+
+
+def scenarios(tier='quick'):
+    return _base_scn_s(tier) + [derive_twice('Iterated', 'SHA256', 'AES256'), derive_twice('Salted', 'SHA1', 'CAST5')]
